@@ -219,6 +219,8 @@ enum Use {
     Value,
     Index,
     ConstExprSize,
+    /// an unsuffixed repeat literal bound by `let`, later used at a declared const-sized type
+    RepeatLet,
 }
 
 /// (source using const R, source with the value substituted, number of input parties description)
@@ -245,6 +247,10 @@ fn use_sources(u: Use, t: CTy, rname: &str, rval: i128) -> Option<(String, Strin
             (format!("pub fn main(x: {tn}) -> {tn} {{\n  x {op} {rname}\n}}\n"), format!("pub fn main(x: {tn}) -> {tn} {{\n  x {op} {rl}\n}}\n"))
         }
         Use::Index => (format!("pub fn main(arr: [u8; 3], y: u8) -> u8 {{\n  arr[{rname}]\n}}\n"), format!("pub fn main(arr: [u8; 3], y: u8) -> u8 {{\n  arr[{rl}]\n}}\n")),
+        Use::RepeatLet => (
+            format!("pub fn main(x: u8) -> [u8; {rname}] {{\n  let a = [7; {rname}];\n  let b: [u8; {rname}] = a;\n  let mut c = b;\n  for i in 0usize..1usize {{\n    c[i] = x;\n  }}\n  c\n}}\n"),
+            format!("pub fn main(x: u8) -> [u8; {n}] {{\n  let a = [7; {n}];\n  let b: [u8; {n}] = a;\n  let mut c = b;\n  for i in 0usize..1usize {{\n    c[i] = x;\n  }}\n  c\n}}\n"),
+        ),
         Use::ConstExprSize => (
             format!("pub fn main(x: u8) -> [u8; const {{ {rname} + 1usize }}] {{\n  let r: [u8; const {{ {rname} + 1usize }}] = [x; const {{ {rname} + 1usize }}];\n  r\n}}\n"),
             return None,
@@ -275,7 +281,7 @@ fn input_sets(u: Use, t: CTy, size: usize) -> Vec<Vec<Vec<bool>>> {
             }
             out
         }
-        Use::Repeat | Use::LoopCount | Use::ConstExprSize => [0u8, 1, 200, 250, 255].iter().map(|v| vec![u8bits(*v)]).collect(),
+        Use::Repeat | Use::LoopCount | Use::ConstExprSize | Use::RepeatLet => [0u8, 1, 200, 250, 255].iter().map(|v| vec![u8bits(*v)]).collect(),
         Use::SingleArrayParties => {
             let mut out = vec![];
             for fill in [0u8, 1, 255, 170] {
@@ -337,7 +343,7 @@ fn check_pair(t: CTy, sec_name: &str, sec: &Section, u: Use, ext: &HashMap<(&'st
     }
     let (rname, _) = sec.last().unwrap();
     let rval = cvals[rname];
-    let size_use = matches!(u, Use::ArrayTypeSize | Use::Repeat | Use::SingleArrayParties | Use::LoopCount | Use::ConstExprSize);
+    let size_use = matches!(u, Use::ArrayTypeSize | Use::Repeat | Use::SingleArrayParties | Use::LoopCount | Use::ConstExprSize | Use::RepeatLet);
     if size_use && (!(0..=48).contains(&rval) || wide_max > 48) {
         // resource bound: never ask the compiler for an astronomically large array
         cnt.skipped_big.fetch_add(1, Ordering::Relaxed);
@@ -557,7 +563,7 @@ pub fn run(tier: Tier) -> i32 {
             }
             let exts: Vec<_> = exts.into_iter().collect();
             let uses: Vec<Use> = match t {
-                CTy::Int(IntTy::Usize) => vec![Use::ArrayTypeSize, Use::Repeat, Use::SingleArrayParties, Use::LoopCount, Use::Value, Use::Index, Use::ConstExprSize],
+                CTy::Int(IntTy::Usize) => vec![Use::ArrayTypeSize, Use::Repeat, Use::SingleArrayParties, Use::LoopCount, Use::Value, Use::Index, Use::ConstExprSize, Use::RepeatLet],
                 _ => vec![Use::Value],
             };
             for u in uses {
